@@ -43,6 +43,13 @@ func filePos(f *os.File) int {
 	return int(p)
 }
 func sameFile(f, g *os.File) bool { return f.Name() == g.Name() }
+func pathFileSize(path string) int {
+	st, err := os.Stat(path)
+	if err != nil {
+		return 0
+	}
+	return int(st.Size())
+}
 
 // fileValidAt: the positional reader accepts the bytes at offset off of f as a record. Its
 // meaning is given by the contract of readRecordAt (uninterpreted function of the file content).
@@ -71,6 +78,7 @@ func streamByte(w io.Writer, i int) byte {
 // modifies designators for ghost state
 func ghostIO() bool                    { return true }
 func ghostFail() bool                  { return true }
+func ghostHandles() bool               { return true }
 func ghostStream(w io.Writer) bool     { return true }
 func ghostReader(r *bufio.Reader) bool { return true }
 func ghostFilePos(f *os.File) bool     { return true }
